@@ -71,6 +71,9 @@ struct Seq {
     limit: usize,
     conns: Vec<Conn>,
     burst: Option<(SocketAddr, usize)>,
+    /// the listener is bound to `[::]`: the load balancer's (or client's) IPv4 connection arrives as
+    /// an IPv4-mapped IPv6 peer
+    dual_stack: bool,
 }
 
 fn malformed(i: usize) -> Vec<u8> {
@@ -177,7 +180,8 @@ fn generate(cli: &Cli) -> Vec<Seq> {
         } else {
             None
         };
-        out.push(Seq { name: format!("seq{i}/proxy-{}/limit-{limit}", match proxy { None => "off".to_string(), Some((a, b)) => format!("v1:{a},v2:{b}") }), proxy, limit, conns, burst });
+        let dual_stack = i % 8 >= 4;
+        out.push(Seq { name: format!("seq{i}/proxy-{}/limit-{limit}{}", match proxy { None => "off".to_string(), Some((a, b)) => format!("v1:{a},v2:{b}") }, if dual_stack { "/dual-stack" } else { "" }), proxy, limit, conns, burst, dual_stack });
     }
     out
 }
@@ -243,11 +247,15 @@ async fn one_connection(server: SocketAddr, c: &Conn, proxy: Option<(bool, bool)
     }
     let mut secret = [0u8; 16];
     Rng::new(secret_seed).fill(&mut secret);
+    // every third client writes more into the host field of its handshake than a name: the form
+    // proxies of the BungeeCord family use to pass an address and a UUID on (`host NUL ip NUL uuid`).
+    // From a client it is text like any other
+    let host = if secret_seed % 3 == 0 { "adm.example.org\0203.0.113.9\0069a79f444e94726a5befca90e38aaf5".to_string() } else { "adm.example.org".to_string() };
     let plan = if c.login {
         let claimed = Ident { name: "Claimed".into(), uuid: secret_seed as u128 };
-        scripts::plan(scripts::login_script(2, "adm.example.org", 25565, &claimed, "en_us"), false, secret, Duration::from_secs(4))
+        scripts::plan(scripts::login_script(2, &host, 25565, &claimed, "en_us"), false, secret, Duration::from_secs(4))
     } else {
-        scripts::plan(scripts::status_script("adm.example.org", 25565, secret_seed), true, secret, Duration::from_secs(4))
+        scripts::plan(scripts::status_script(&host, 25565, secret_seed), true, secret, Duration::from_secs(4))
     };
     let log = Client::new(&end, plan).run().await;
     Ok((end, log))
@@ -259,9 +267,14 @@ async fn run_seq(seq: &Seq) -> SeqOutcome {
         limiter: Some((Duration::from_secs(3600), seq.limit)),
         proxy: seq.proxy,
         secret: Some(b"admission-secret".to_vec()),
+        dual_stack: seq.dual_stack,
         ..Default::default()
     };
     let direct = start_direct(spec).await;
+    // on a dual-stack listener an IPv4 peer is the same host in its IPv4-mapped spelling: addresses
+    // are compared in canonical form there (which of the two spellings the router passes on is not
+    // for this check to say)
+    let canon = |a: SocketAddr| if seq.dual_stack { SocketAddr::new(a.ip().to_canonical(), a.port()) } else { a };
     let mut o = SeqOutcome { findings: vec![], served: 0, refused: 0, unserved_invalid: 0, addresses_checked: 0, trace: vec![], inconclusive: vec![] };
     let mut admitted: HashMap<IpAddr, usize> = HashMap::new();
     let shape_base = if seq.proxy.is_some() { "proxy-on" } else { "proxy-off" };
@@ -296,13 +309,13 @@ async fn run_seq(seq: &Seq) -> SeqOutcome {
             }
             Some(eff) if c.abort => {
                 // counted like any other visit; what it was answered is not looked at
-                let n = admitted.entry(eff.ip()).or_insert(0);
+                let n = admitted.entry(canon(eff).ip()).or_insert(0);
                 if *n < seq.limit {
                     *n += 1;
                 }
             }
             Some(eff) => {
-                let n = admitted.entry(eff.ip()).or_insert(0);
+                let n = admitted.entry(canon(eff).ip()).or_insert(0);
                 let expect_served = *n < seq.limit;
                 if expect_served {
                     *n += 1;
@@ -333,8 +346,8 @@ async fn run_seq(seq: &Seq) -> SeqOutcome {
                         };
                         if let Some(seen) = seen {
                             o.addresses_checked += 1;
-                            if seen != eff {
-                                let which = if seen == peer { "tcp-peer" } else { "other" };
+                            if canon(seen) != canon(eff) {
+                                let which = if canon(seen) == canon(peer) { "tcp-peer" } else { "other" };
                                 bad(
                                     format!("service-saw-wrong-client-address/{}/{hc}/{which}", call.call.name()),
                                     format!("the {} service was given client address {seen} instead of the effective address {eff}", call.call.name()),
@@ -351,7 +364,7 @@ async fn run_seq(seq: &Seq) -> SeqOutcome {
                                 && let Ok(j) = serde_json::from_slice::<Value>(&payload[32..])
                             {
                                 o.addresses_checked += 1;
-                                if j["client_addr"].as_str().and_then(|s| s.parse::<SocketAddr>().ok()) != Some(eff) {
+                                if j["client_addr"].as_str().and_then(|s| s.parse::<SocketAddr>().ok()).map(canon) != Some(canon(eff)) {
                                     bad(format!("cookie-bound-to-wrong-address/{hc}"), format!("the issued cookie is bound to {} instead of {eff}", j["client_addr"]), json!({"index": i}));
                                 }
                             }
